@@ -164,5 +164,45 @@ def jsonText : F64 → Text
   | .inf _ => nullText
   | .fin s m e => if s then 45 :: jsonAbs m e else jsonAbs m e
 
+/-! ### reading a JSON number back (an EXACTLY ROUNDING reader)
+
+`[-]digits[.digits][(e|E)[+|-]digits]` denotes the rational `mantissa · 10^exponent`; the reader returns
+that rational rounded ONCE with `F64.round` (a leading `-` gives the negative zero for a zero mantissa).
+Anything else — in particular `null`, what `serde_json` writes for NaN and the infinities — is not a
+number. -/
+
+/-- `e` or `E` -/
+def isExpMark (c : Nat) : Bool := c == 101 || c == 69
+
+/-- the exponent part `[+|-]digits` -/
+def parseExp (t : Text) : Option Int :=
+  let (neg, ds) : Bool × Text := match t with
+    | 45 :: r => (true, r)
+    | 43 :: r => (false, r)
+    | _ => (false, t)
+  if ds.isEmpty || !(ds.all Case.isDigit) then none
+  else
+    let n : Nat := ds.foldl (fun acc c => acc * 10 + (c - 48)) 0
+    some (if neg then -(n : Int) else (n : Int))
+
+/-- `v · 10^x`, exactly -/
+def scale10 (v : Rat) (x : Int) : Rat := if x ≥ 0 then v * pow10 x.toNat else v / pow10 (-x).toNat
+
+/-- the JSON number `t` read with exact rounding: the mantissa `[-]digits[.digits]` up to the first
+`e`/`E`, then the exponent; `none` for every text that is not of this form (e.g. `null`) -/
+def parseJsonNum (t : Text) : Option F64 :=
+  let mant := t.takeWhile (fun c => !isExpMark c)
+  let rest := t.dropWhile (fun c => !isExpMark c)
+  match parseDecText mant with
+  | none => none
+  | some (v, _) =>
+    let neg := mant.head? == some 45
+    match rest with
+    | [] => some (round v neg)
+    | _ :: ex =>
+      match parseExp ex with
+      | none => none
+      | some x => some (round (scale10 v x) neg)
+
 end F64
 end Qty
